@@ -35,8 +35,24 @@ def gen_cases(ctx):
     return lines
 
 
-def subst_tokens(toks, old, new):
-    return [("I" + new) if t == "I" + old else t for t in toks]
+def subst_tokens(toks, old, new, suffix=()):
+    out = []
+    for t in toks:
+        if t == "I" + old:
+            out.append("I" + (new or "-"))
+            out.extend(suffix)
+        else:
+            out.append(t)
+    return out
+
+
+def is_array_type(case):
+    f = case.split(" ")
+    return len(f) == 4 and f[1] == "pg" and f[2] == "asenum" and unhexs(f[3]).endswith("[]")
+
+
+def array_base(h):
+    return hexs(unhexs(h)[:-2])
 
 
 def batch_oracle(ctx, lines, impl):
@@ -63,7 +79,8 @@ def _batch_oracle_positions(ctx, lines, impl):
     base_lines = ["iden %s %s %s" % (b, p, hexs(BASE)) for b, p in keys]
     base_out = dict(zip(keys, ctx.run_impl(base_lines, "base")))
     # model: prepared identifiers; engine tokens of every implementation output
-    names = sorted(set((c.split(" ")[1], c.split(" ")[3]) for c in lines) | set((b, hexs(BASE)) for b in B))
+    names = sorted(set((c.split(" ")[1], c.split(" ")[3]) for c in lines) | set((b, hexs(BASE)) for b in B) |
+                   set(("pg", array_base(c.split(" ")[3])) for c in lines if is_array_type(c)))
     prep = dict(zip(names, ctx.run_model(["idprep %s %s" % (b, h) for b, h in names], "prep")))
     stmts = sorted(set((c.split(" ")[1], o) for c, o in zip(lines, impl) if o != "PANIC" and " " not in o) |
                    set((k[0], o) for k, o in base_out.items() if o != "PANIC"))
@@ -92,7 +109,16 @@ def _batch_oracle_positions(ctx, lines, impl):
             verdicts[i] = "implementation panicked"
             continue
         # correspondence: the code writes exactly the model's prepared identifier at this position
-        want = unhexs(bo).replace(unhexs(prep[(b, hexs(BASE))]), unhexs(prep[(b, h)]))
+        suffix_toks = []
+        if is_array_type(c):
+            # Postgres AsEnum: a type name ending in [] denotes the array type of the name before it
+            # (documented feature, src/backend/postgres/query.rs): the identifier is the base name and
+            # the [] is type syntax written after the closing quote
+            h = array_base(h)
+            want = unhexs(bo).replace(unhexs(prep[(b, hexs(BASE))]), unhexs(prep[(b, h)]) + "[]")
+            suffix_toks = ["C5b", "C5d"]
+        else:
+            want = unhexs(bo).replace(unhexs(prep[(b, hexs(BASE))]), unhexs(prep[(b, h)]))
         if want != unhexs(o):
             ctx.extra_disagreements.append((c, o, hexs(want)))
         # oracle: the engine's token stream is the baseline's with the name substituted
@@ -100,9 +126,10 @@ def _batch_oracle_positions(ctx, lines, impl):
         if t == "LEXFAIL":
             verdicts[i] = "the engine lexer rejects the statement"
             continue
-        if t.split(" ")[:-1] != subst_tokens(btl, hexs(BASE), h):
+        expect = subst_tokens(btl, hexs(BASE), h, suffix_toks)
+        if t.split(" ")[:-1] != expect:
             verdicts[i] = "engine token stream differs from the plain-name statement beyond the identifier: %s vs %s" % (
-                t, " ".join(subst_tokens(btl, hexs(BASE), h)))
+                t, " ".join(expect))
     ctx.cov["positions_rendered_cases"] = rendered
     return verdicts
 
